@@ -530,3 +530,27 @@ seeded("c13-node-line-skipped", ["C13"], [(MX, "            nodename = nodenamef
 seeded("c02-attach-loop-skips-current-children", ["C02"], both("            for child in children:\n                child.parent = self\n", "            for child in children:\n                if child.parent is self:\n                    continue\n                child.parent = self\n"), ["E5"])
 seeded("c04-depth-from-children-footprint", ["C04"], both("        for depth, _ in enumerate(self.iter_path_reverse()):\n            continue\n        return depth", "        depth = 0\n        node = self\n        while node.parent is not None:\n            depth += 1 if node.parent.children else 1\n            node = node.parent\n        return depth"), ["N3"])
 seeded("c04-size-via-root", ["C04"], both("        for size, _ in enumerate(PreOrderIter(self), 1):\n            continue\n        return size", "        for size, _ in enumerate(PreOrderIter(self if self.parent is None else self), 1):\n            continue\n        return size"), ["N3"])
+
+
+# ---------------------------------------------------------------- patch-based corpus
+# benign/<id>/patch.diff : behaviour-preserving refactorings written by independent authors
+#                          (must stay silent for every check)
+# seeded/<id>/patch.diff : property-breaking changes written by independent authors
+#                          (must fire for the checks recorded in meta.json)
+import glob as _glob
+import json as _json
+import os as _os
+
+_ROOT = _os.path.dirname(_os.path.dirname(_os.path.dirname(_os.path.abspath(__file__))))
+ALL_CHECKS = ["C01", "C02", "C03", "C04", "C05", "C06", "C07", "C08", "C10", "C11", "C12", "C13", "C14", "C16", "C17", "C18", "C19", "C20"]
+for _d in sorted(_glob.glob(_os.path.join(_ROOT, "benign", "*"))):
+    _p = _os.path.join(_d, "patch.diff")
+    if _os.path.exists(_p):
+        VARIANTS.append(dict(id="benign-" + _os.path.basename(_d), props=list(ALL_CHECKS), kind="benign", edits=[], patch=_p))
+for _d in sorted(_glob.glob(_os.path.join(_ROOT, "seeded", "*"))):
+    _p, _m = _os.path.join(_d, "patch.diff"), _os.path.join(_d, "meta.json")
+    if _os.path.exists(_p) and _os.path.exists(_m):
+        _meta = _json.load(open(_m))
+        if _meta.get("checks_that_fire"):
+            VARIANTS.append(dict(id="seeded-" + _os.path.basename(_d), props=list(_meta["checks_that_fire"]), kind="seeded", edits=[],
+                                 patch=_p, rules=None))
